@@ -5,6 +5,7 @@ CONSTANTS
   FixPred = FALSE
   FixLeave = FALSE
   FixWrap = FALSE
+  FixDead = FALSE
   MaxTry = 2
   TrackCov = FALSE
   Goal = "none"
